@@ -492,12 +492,19 @@ void big_operand_ops(Enumerator &E) {
             }
     // format strings with 300 / 1100 bytes of literal text, every spelling of the call
     for (unsigned fi = 11; fi < 14; fi++)
-        for (unsigned var = 0; var < 8; var++)
+        for (unsigned var = 0; var < 11; var++)
             for (uint32_t a1 : {5u, 40u, 300u}) {
                 Builder b; uint32_t s = b.str(a1); uint32_t t2 = b.str(16);
                 Op o; o.kind = S_FORMAT; o.a = s; o.b = t2; o.c = fi; o.d = var;
                 size_t ts = b.target(o);
                 E.cell(nm("format", "fmt" + std::to_string(fi) + ",var" + std::to_string(var) + ",big", "a1=" + std::to_string(a1)), b, ts);
+            }
+    // the most negative int / long / long long at every fill level at which the sign fits and the digits do not (plain builds only insert them, ops_ss.cpp)
+    for (uint32_t sz : {236u, 237u, 238u, 240u, 244u, 245u, 246u, 247u, 250u, 252u, 254u, 255u, 256u, 500u, 501u, 502u, 510u, 511u, 512u})
+        for (unsigned ty : {0u, 2u, 4u})
+            for (uint32_t vi : {28u, 29u}) {
+                Builder b; uint32_t s = b.ss(sz); Op o; o.kind = SS_SHL_INT; o.a = s; o.b = vi; o.c = ty; size_t ts = b.target(o);
+                E.cell(nm("ss_shl_int", "ty" + std::to_string(ty) + ",min" + std::to_string(vi), "size=" + std::to_string(sz)), b, ts);
             }
     // element counts beyond 32 bits (reserved address space, heap seam)
     for (int t = 0; t < 4; t++)
@@ -508,6 +515,18 @@ void big_operand_ops(Enumerator &E) {
                 size_t ts = b.target(o);
                 E.cell(nm("huge", "t" + std::to_string(t) + ",sel" + std::to_string(sel), "dst=" + std::to_string(dz)), b, ts);
             }
+    // ST::format(substitute_invalid, ...) and wide arguments (well-formed and malformed) with the short formats
+    for (unsigned fi : {0u, 2u, 4u})
+        for (unsigned var = 8; var < 11; var++)
+            for (int corrupt = 0; corrupt < 2; corrupt++)
+                for (uint32_t a1 : {5u, 40u, 300u}) {
+                    if (corrupt && var == 8) continue;
+                    Builder b; uint32_t s = b.str(a1); uint32_t t2 = b.str(16);
+                    Op o; o.kind = S_FORMAT; o.a = s; o.b = t2; o.c = fi; o.d = var;
+                    if (corrupt) { o.fault = F_CORRUPT; o.fc = 1 | (40 << 8); }
+                    size_t ts = b.target(o);
+                    E.cell(nm("format", "fmt" + std::to_string(fi) + ",var" + std::to_string(var) + (corrupt ? ",corrupted" : ""), "a1=" + std::to_string(a1)), b, ts);
+                }
     // the deprecated to_buffer(char_buffer&, bool, utf_validation_t) spelling
     for (unsigned which = 6; which < 8; which++)
         for (unsigned mode = 0; mode < 3; mode++)
